@@ -352,6 +352,11 @@ class Interp:
                 return cache[(module, name)]
         if name in ('True', 'False', 'None'):
             return K({'True': True, 'False': False, 'None': None}[name])
+        if m is not None and name in m.unindexed and name not in m.consts:
+            raise Fail(f'module-level name {name} of {module} is bound by control flow the front end does not index')
+        import builtins as _bi
+        if not hasattr(_bi, name) and name not in ('__name__', '__file__', '__doc__', '__class__', 'reveal_type'):
+            raise Fail(f'name {name} is not defined in module {module}')
         return Builtin(name)
 
     TRANSPARENT_DECORATORS = ('property', 'staticmethod', 'classmethod', 'setter', 'getter', 'abstractmethod', 'lru_cache', 'cache', 'wraps', 'overload',
@@ -1935,7 +1940,30 @@ class Interp:
         elif isinstance(tg, ast.Subscript):
             o = self.ev(tg.value, fr)
             if isinstance(tg.slice, ast.Slice):
-                raise Fail('slice assignment')
+                parts = [self.ev(x, fr) if x is not None else K(None) for x in (tg.slice.lower, tg.slice.upper, tg.slice.step)]
+                if not all(isinstance(x, K) and (x.v is None or (isinstance(x.v, int) and not isinstance(x.v, bool))) for x in parts):
+                    raise Fail('slice assignment with symbolic bounds')
+                sl = slice(parts[0].v, parts[1].v, parts[2].v)
+                if isinstance(o, K) and isinstance(o.v, bytearray):
+                    if isinstance(v, K) and isinstance(v.v, (bytes, bytearray)):
+                        try:
+                            o.v[sl] = v.v
+                        except ValueError as e:
+                            raise RaiseEx('ValueError', str(e))
+                        return
+                    raise Fail('slice assignment of symbolic bytes into a bytearray')
+                if isinstance(o, ListV) and not o.tup:
+                    items = self.iterate(v)
+                    if items is None:
+                        raise Fail('slice assignment from an unknown iterable')
+                    try:
+                        o.items[sl] = list(items)
+                    except ValueError as e:
+                        raise RaiseEx('ValueError', str(e))
+                    return
+                if isinstance(o, ListV) or (isinstance(o, K) and isinstance(o.v, (bytes, str, tuple))):
+                    raise RaiseEx('TypeError', 'object does not support item assignment')
+                raise Fail(f'slice assignment on {vrepr(o)[:40]}')
             k = self.ev(tg.slice, fr)
             self.setitem(o, k, v, tg)
         elif isinstance(tg, (ast.Tuple, ast.List)):
